@@ -72,7 +72,7 @@ def run(tier, seed):
             k += n
         # data-length boundaries for one rectangle, with and without compression header, both length forms
         lens = sorted(set([0, 1, 2, 7, 8, 9, 0x7f, 0x80, 0xff, 0x100, 0x3fe0, 0x3fff, 0x4000, 0x7f00, 32700] +
-                          (list(range(0, 32740)) if tier == "thorough" else [rng.randrange(0, 32740) for _ in range(60)])))
+                          (list(range(0, 600)) + list(range(600, 32740, 13)) + list(range(16300, 16500)) + list(range(32600, 32740)) if tier == "thorough" else [rng.randrange(0, 32740) for _ in range(60)])))
         cur = []
         for i, dl in enumerate(lens):
             flags = [0, 0x400, 1, 0x401][i % 4]
